@@ -1,0 +1,53 @@
+//go:build verif
+
+package fn0
+
+// Contracts for package fn0 (the function monad on fp.Func0[A] = func(fp.Unit) A), checked by /verif/govc.
+// Comment-only file.  A Func0 is a program: the lemmas compare programs applied to an arbitrary argument u,
+// with EqT, i.e. including the sequence of calls to the user's functions.
+
+//@ import "github.com/csgura/fp"
+//
+// ---- primitives by their statement: Pure is the constant function, FlatMap is reader bind ----------
+//
+//@ lemma pureDef[A any](v A, u fp.Unit)
+//@   prop C01
+//@   ensures EqT(Pure(v)(u), v)
+//
+//@ lemma flatMapDef[A, B any](m fp.Func0[A], fn fp.Func1[A, fp.Func0[B]], u fp.Unit)
+//@   prop C01
+//@   ensures EqT(FlatMap(m, fn)(u), fn(m(u))(u))
+//
+// ---- monad laws ------------------------------------------------------------------------------------
+//
+//@ lemma leftIdentity[A, B any](a A, f fp.Func1[A, fp.Func0[B]], u fp.Unit)
+//@   prop C01
+//@   ensures EqT(FlatMap(Pure(a), f)(u), f(a)(u))
+//
+//@ lemma rightIdentity[A any](m fp.Func0[A], u fp.Unit)
+//@   prop C01
+//@   ensures EqT(FlatMap(m, func(a A) fp.Func0[A] { return Pure(a) })(u), m(u))
+//
+//@ lemma assoc[A, B, C any](m fp.Func0[A], f fp.Func1[A, fp.Func0[B]], g fp.Func1[B, fp.Func0[C]], u fp.Unit)
+//@   prop C01
+//@   ensures EqT(FlatMap(FlatMap(m, f), g)(u), FlatMap(m, func(a A) fp.Func0[C] { return FlatMap(f(a), g) })(u))
+//
+// ---- derived combinators = their definition in terms of FlatMap and Pure ---------------------------
+//
+//@ lemma mapDef[A, B any](m fp.Func0[A], f fp.Func1[A, B], u fp.Unit)
+//@   prop C01
+//@   ensures EqT(Map(m, f)(u), FlatMap(m, func(a A) fp.Func0[B] { return Pure(f(a)) })(u))
+//@   ensures EqT(Map(m, f)(u), f(m(u)))
+//
+//@ lemma mapIdentity[A any](m fp.Func0[A], u fp.Unit)
+//@   prop C01
+//@   ensures EqT(Map(m, func(a A) A { return a })(u), m(u))
+//
+//@ lemma mapCompose[A, B, C any](m fp.Func0[A], f fp.Func1[A, B], g fp.Func1[B, C], u fp.Unit)
+//@   prop C01
+//@   ensures EqT(Map(Map(m, f), g)(u), Map(m, func(a A) C { return g(f(a)) })(u))
+//
+//@ lemma flattenDef[A any](mm fp.Func0[fp.Func0[A]], u fp.Unit)
+//@   prop C01
+//@   ensures EqT(Flatten(mm)(u), FlatMap(mm, func(m fp.Func0[A]) fp.Func0[A] { return m })(u))
+//@   ensures EqT(Flatten(mm)(u), mm(u)(u))
